@@ -37,9 +37,11 @@ Theorem C30_acquire_call : forall c st now id w tcall timeout, m_wf c -> reachab
 Proof. exact sem_call. Qed.
 
 (* ... and every time the blocked caller runs again after a broadcast: the same table, so it is
-   granted in the first run in which it fits ("as soon as enough is released"). *)
-Theorem C30_acquire_wake : forall c st now x, m_wf c -> reachable c st ->
-  In x (woken st) -> NoDup (map wid (woken st)) ->
+   granted in the first run in which it fits.  [reachable_u] = reachable with goroutine ids that are
+   unique among pending callers (which makes the woken ids unique: C30_unique_ids). *)
+Theorem C30_unique_ids : forall c st, reachable_u c st -> reachable c st /\ uniq st.
+Proof. intros c st H; split; [exact (reachable_u_reachable c st H) | exact (reachable_u_uniq c st H)]. Qed.
+Theorem C30_acquire_wake : forall c st now x, m_wf c -> reachable_u c st -> In x (woken st) ->
   exists rest,
     (forall y, In y rest <-> In y (woken st) /\ y <> x) /\
     step true st now (EWake (wid x)) =
@@ -48,7 +50,21 @@ Theorem C30_acquire_wake : forall c st now x, m_wf c -> reachable c st ->
     | DRefuse => (mkS (held st) (cap st) (waiting st) rest, [ORet (wid x) false])
     | DBlock => (mkS (held st) (cap st) (waiting st ++ [x]) rest, [OBlock (wid x)])
     end.
-Proof. exact sem_wake. Qed.
+Proof. exact sem_wake_u. Qed.
+
+(* "Granted as soon as enough is released", history level (no lost wake-up): in NO reachable state is
+   there a caller blocked inside cond.Wait() whose request fits, or exceeds the capacity - whenever the
+   held amount or the capacity went down, everybody was made runnable. *)
+Theorem C30_no_fitting_waiter : forall c st x, m_wf c -> reachable c st -> In x (waiting st) ->
+  fitsb (held st) (ww x) (cap st) = false /\ exceedsb (ww x) (cap st) = false.
+Proof. exact sem_no_fitting_waiter. Qed.
+(* ... and the no-competitor case: a pending caller whose request fits after a Release is granted the
+   first time it runs. *)
+Theorem C30_release_then_wake : forall c st now now' w x,
+  m_wf c -> reachable_u c st -> m_wf w -> In x (pending st) ->
+  fits (held (fst (step true st now (ERelease w)))) (ww x) (cap st) ->
+  exists st', step true (fst (step true st now (ERelease w))) now' (EWake (wid x)) = (st', [ORet (wid x) true]).
+Proof. exact sem_release_then_wake. Qed.
 
 (* Release: exact subtraction, or reset to zero with exactly one warning on over-release; and every
    blocked caller is made runnable (no lost wake-up). *)
@@ -103,6 +119,18 @@ Theorem C30_scheduler_is_run : forall fx c prefer sc,
   st = fst (run fx (init c) (rev tr)).
 Proof. exact simulate_is_run. Qed.
 
+(* The replay scheduler reaches quiescence after every script instant, for ALL scripts and wake orders:
+   nobody is runnable and every blocked caller has its deadline ahead ([quiet]); with
+   C30_no_fitting_waiter (its request neither fits nor exceeds the capacity) this is the acceptor's
+   "pending" clause - whoever has not returned at the end of an instant is rightly still waiting.
+   And with all timers delivered every Acquire returns (the repaired model never reports "never"). *)
+Theorem C30_scheduler_quiescent : forall prefer s t0 now op,
+  quiet (fst (fst s)) t0 -> quiet (fst (fst (sim_instant prefer s now op))) now.
+Proof. exact sim_instant_quiet. Qed.
+Theorem C30_scheduler_all_return : forall c prefer sc,
+  let '(st, tr, ob) := sim_script true prefer (init c, [], []) sc in waiting st = [] /\ woken st = [].
+Proof. exact simulate_all_return. Qed.
+
 (* non-vacuity: a reachable state with held > 0 and two runnable waiters, one that fits and one
    that does not *)
 Example C30_nonvacuous : reachable (mkM 2 20) ex_state /\
@@ -112,7 +140,10 @@ Proof. split; [exact ex_state_reachable | exact ex_state_shape]. Qed.
 Print Assumptions C30_bound.
 Print Assumptions C30_try_exact.
 Print Assumptions C30_acquire_call.
+Print Assumptions C30_unique_ids.
 Print Assumptions C30_acquire_wake.
+Print Assumptions C30_no_fitting_waiter.
+Print Assumptions C30_release_then_wake.
 Print Assumptions C30_release.
 Print Assumptions C30_terminate.
 Print Assumptions C30_terminated_forever.
@@ -122,3 +153,5 @@ Print Assumptions C30_runnable_stays.
 Print Assumptions C30_deadline_returns.
 Print Assumptions C30_timeout.
 Print Assumptions C30_scheduler_is_run.
+Print Assumptions C30_scheduler_quiescent.
+Print Assumptions C30_scheduler_all_return.
